@@ -208,6 +208,9 @@ class TransferOps:
             if TransferOps.compare_local(cache_path, pool_path, params):
                 logging.info(f"Skip download of an already available {cache_path}")
                 return
+            # a link from an earlier link mode use must not be written through
+            if os.path.islink(cache_path):
+                os.unlink(cache_path)
             shutil.copy(pool_path, cache_path)
 
     @staticmethod
